@@ -131,10 +131,15 @@ def _has_illegal_attr_name(case):
     except Exception:
         return True
     def walk(n):
-        for k in (n.get('attribs') or {}):
+        for k in list(n.get('attribs') or {}) + list(n.get('att_attribs') or {}):
             try: etree.Element('x').set(k, 'v')
             except ValueError: return True
-        return any(walk(k) for key in ('heading', 'subheading', 'from', 'children') for k in (n.get(key) or []) if isinstance(k, dict))
+        # every place a node can sit in: lists (children, attachments, heading, ...) and single nodes (intro, wrapUp, content, ...)
+        for key, v in n.items():
+            if key in ('attribs', 'att_attribs'): continue
+            for k in (v if isinstance(v, list) else [v]):
+                if isinstance(k, dict) and walk(k): return True
+        return False
     return walk(d)
 
 CLASSIFIERS = {
